@@ -297,3 +297,36 @@ def tree_random(w):
         c = HashMap(width).with_uint_values(16).set(k, 5).serialize().hash
         w.claim('bytes / bit-text / int forms of the same key give the same dictionary', a == b_ == c)
     w.claim('done', True)
+
+
+@obligation('C09.reserialize', 'C09', cases=[{'how': h} for h in ('overwrite', 'add', 'overwrite_via_set', 'map_attr')],
+            fuc=[H + 'serialize', H + 'set_int_key', H + 'set'],
+            descr='history independence: a map is serialised, then changed (an existing key overwritten with another symbolic value through '
+                  'set_int_key or set, a key added, or the map attribute edited), and serialised again: parsing the second cell returns the '
+                  'CURRENT content (a serialiser remembering its earlier result would return the old one); symbolic values')
+def reserialize(w, how):
+    from pytoniq_core.boc.hashmap.hashmap import HashMap
+    v0, v1, v2 = w.int('v0', 0, 255), w.int('v1', 0, 255), w.int('v2', 0, 255)
+    hm = HashMap(8).with_uint_values(8).set_int_key(3, v0).set_int_key(200, v1)
+    c1 = hm.serialize()
+    vd = lambda c: c.load_uint(8)
+    r1 = HashMap.parse(c1.begin_parse(), 8, None, vd)
+    w.claim('first serialisation', list(r1.keys()) == [3, 200] and w.And(r1[3] == v0, r1[200] == v1))
+    want = {3: v0, 200: v1}
+    if how == 'overwrite':
+        hm.set_int_key(3, v2)
+        want[3] = v2
+    elif how == 'overwrite_via_set':
+        hm.set(200, v2)
+        want[200] = v2
+    elif how == 'add':
+        hm.set_int_key(77, v2)
+        want[77] = v2
+    else:
+        hm.map[3] = v2
+        want[3] = v2
+    c2 = hm.serialize()
+    r2 = HashMap.parse(c2.begin_parse(), 8, None, vd)
+    w.claim('second serialisation has the current keys', list(r2.keys()) == sorted(want))
+    if list(r2.keys()) == sorted(want):
+        w.claim('second serialisation has the CURRENT values', w.And(*[r2[k] == want[k] for k in want]))
